@@ -22,6 +22,9 @@ CLAIMS = {
  'C09': ('model_checking',
    "TLA+ spec Stages (generic pull stage: bounded buffer, upstream with arbitrary short reads and one injected fault, the code's two end-of-input rules, the fill_buffer loop) is model-checked over every composition of every input <=7 (thorough 9) into read sizes x every fault position x caps 2..4 for the three rule combinations the crate uses, with sensitivity runs (short-read-as-EOF without fill_buffer => Transparent violated; error swallowed inside the fill loop => FaultSurfaces violated); TLC emits the 42 cyclic schedule patterns over symbolic sizes; the harness instantiates them at the real buffer sizes for 7 pipeline configurations x 10-20 payload sizes (builder source/sink schedules, reader source x consumer schedules, single faults on source and sink at sampled call indices) and checks verdict transparency on rejected inputs (all chunkings of all short texts; trailing-data / truncated streams x every consumer pattern).",
    'DESIGN.md 5/C09', TECH),
+ 'C01': ('model_checking',
+   "TLA+ spec BuilderConfig (configuration space of MessageBuilder, validity oracle, expected packet nesting, boundary payload sizes) drives the check: TLC emits every configuration within two dimensions of the base (all 2-way value pairs) with its boundary sizes and sweep configurations run over every payload length around the partial-body / AEAD-chunk / 8 KiB buffer edges; the layer machines Framing, AeadStream, CfbMdc and Stages are model-checked in the same run. Each (configuration, size) is built with the real builder, deframed independently (nesting + legality) and read back through every opener (session key, each password, each recipient key); payload, metadata and every signature must come back.",
+   'DESIGN.md 5/C01', TECH),
 }
 checks = []
 for p in props:
